@@ -37,7 +37,9 @@ type Parser struct {
 }
 
 func (p *Parser) ContinuationNeeded() bool {
-	return p.continuationNeeded
+	// A line that ends inside a string needs a continuation even when the string starts a statement
+	// (the parser then just sees the end of line and stops without having set the flag).
+	return p.continuationNeeded || p.l.Unterminated()
 }
 
 func (p *Parser) registerPrefix(t token.Type, fn prefixParseFn) {
